@@ -31,7 +31,7 @@ Qed.
 Lemma restart_cps ih ivs st vals log (P : res kstate -> Prop) :
   1 <= ih -> vwf ivs -> SI ih ivs st ->
   (forall s0, stores_of s0 = st -> st_log s0 = log -> st_vals s0 = vals ->
-      INV ih ivs s0 -> tinv s0 -> comvals ih ivs s0 -> ne_state s0 -> n1 s0 -> kok s0 ->
+      INV ih ivs s0 -> tinv s0 -> comvals ih ivs s0 -> ne_state s0 -> n1 s0 -> kok s0 -> loadedv s0 ->
       P (bind (recheck_view_shifts s0) (fun s1 => Ok (update_observers s1)))) ->
   P (restart ih ivs st vals log).
 Proof.
@@ -56,7 +56,7 @@ Proof.
       pose proof (loaded_state_ok ih ivs st vals log evs vh vr ch cr Hih Hnhr Hfine Hcert Hrounds Hrep ivs Evs
                     com None vot0 nxt0 cpv Lv Ln Hivs) as HS end.
     cbv zeta in HS. rewrite Hnhr in HS. unfold dressed in HS.
-    destruct HS as (S1&S2&S3&S4&S5&S6).
+    destruct HS as (S1&S2&S3&S4&S5&S6&S7).
     + cbn [v_h]. lia.
     + cbn [v_r]. lia.
     + apply auth_view_fresh.
@@ -116,7 +116,7 @@ Proof.
       pose proof (loaded_state_ok ih ivs st vals log evs vh vr ch cr Hih Hnhr Hfine Hcert Hrounds Hrep (hd_next x) Evs
                     com (Some x) vot0 nxt0 cpv Lv Ln Hxnext) as HS end.
     cbv zeta in HS. rewrite Hnhr in HS. unfold dressed in HS.
-    destruct HS as (S1&S2&S3&S4&S5&S6).
+    destruct HS as (S1&S2&S3&S4&S5&S6&S7).
     + cbn. exact C1.
     + cbn. exact C2.
     + apply auth_view_bump. destruct C5 as [A B]. split; cbn; [exact A|]. first [exact B|rewrite <- Evpc; exact B|rewrite Evpc; exact B].
@@ -134,11 +134,11 @@ Theorem restart_on_SI ih ivs st vals log :
     restart ih ivs st vals log = Ok (update_observers s1) /\
     recheck_view_shifts s0 = Ok s1 /\
     stores_of s0 = st /\ st_log s0 = log /\ st_vals s0 = vals /\
-    INV ih ivs s0 /\ tinv s0 /\ comvals ih ivs s0 /\ ne_state s0 /\ n1 s0 /\ kok s0 /\
+    INV ih ivs s0 /\ tinv s0 /\ comvals ih ivs s0 /\ ne_state s0 /\ n1 s0 /\ kok s0 /\ loadedv s0 /\
     INV ih ivs s1 /\ tinv s1 /\ adv s0 s1.
 Proof.
   intros Hih Hivs HSI. apply (restart_cps ih ivs st vals log); try assumption.
-  intros s0 E1 E2 E3 HI HT HC HN H1 HK.
+  intros s0 E1 E2 E3 HI HT HC HN H1 HK HL.
   destruct (recheck_total ih ivs s0 HI HT) as (s1&Er&I1&T1&A1).
   exists s0, s1. rewrite Er. cbn [bind]. split; [reflexivity|]. split; [reflexivity|]. repeat (split; [assumption|]). assumption.
 Qed.
